@@ -125,6 +125,11 @@ static void run_case(const uint8_t* hb, size_t hl, size_t n, int follow, bool di
     vf_cnt(K_FOLLOW, 1);
     if (!same(&a, p, &c, q)) vf_fail(NULL, "FINISHED result changes when the bytes after `read` are removed");
   }
+  if ((vf_cnt_get_local(VC_EVAL) & 0x3ffff) == 4097) {
+    char hx[40];
+    vf_hex(hx, sizeof hx, hb, hl);
+    vf_sample("head %s, buffer of %zu bytes: status=%d read=%zu required=%zu callbacks=%u ; tokeniser: %s", hx, n, a.r.status, a.r.read, a.r.required, a.rec.ncalls, hr == RH_OK ? "complete" : hr == RH_NEED ? "incomplete" : "reserved");
+  }
   if (vf_replaying) {
     vf_sb_reset(&sb);
     if (a.rec.ncalls) vf_event_render(&a.rec.ev[0], p, &sb);
